@@ -1,3 +1,99 @@
-import SqliteDissect.Model.Wal
+/-
+C02 — every WAL commit is reconstructed as a faithful snapshot (page-lookup half; the row-level
+half composes with C01 through the version interface), and
+C05 — a torn WAL yields only committed states (frame-level half).
+-/
+import SqliteDissect.Proofs.Wal
+
 namespace SqliteDissect.Properties.C02
+open SqliteDissect SqliteDissect.Model
+
+/-- grouping of the valid frames into commit records: nothing is lost or reordered, every record
+ends in its only commit frame, and what is left over contains no commit frame -/
+theorem group_spec (fs : List Frame) (gs : List (List Frame)) (rest : List Frame)
+    (h : groupFrames fs [] [] = (gs, rest)) :
+    gs.flatten ++ rest = fs ∧
+    (∀ g ∈ gs, ∃ init last, g = init ++ [last] ∧ last.isCommit = true ∧ ∀ f ∈ init, f.isCommit = false) ∧
+    (∀ f ∈ rest, f.isCommit = false) := by
+  exact Proofs.Wal.group_spec fs gs rest h
+
+/-- the number of versions is one plus the number of commit frames among the valid frames -/
+theorem version_count (fs : List Frame) :
+    (groupFrames fs [] []).1.length = (fs.filter Frame.isCommit).length := by
+  exact Proofs.Wal.version_count fs
+
+/-- the page→frame index handed from record to record answers every lookup with the *latest*
+frame for that page among all frames up to and including that record (also when a page occurs
+several times inside one transaction) -/
+theorem page_frame_index_latest (gs : List (List Frame)) (p : Nat)
+    (hok : ∀ g ∈ gs, ∃ r, recordFrames g = .ok r) :
+    dictGet? (gs.foldl (fun pfi g =>
+        match recordFrames g with
+        | .ok (fd, _, _) => nextPfi pfi fd
+        | .error _ => pfi) []) p
+      = Spec.latestFrame gs.flatten p := by
+  exact Proofs.Wal.page_frame_index_latest gs p hok
+
+/-- the page→version index: a page untouched by the log stays at version 0 (database file), a
+page written by the log belongs to the last record that wrote it -/
+theorem page_version_index_latest (gs : List (List Frame)) (base : List (Nat × Nat)) (p : Nat)
+    (hok : ∀ g ∈ gs, ∃ r, recordFrames g = .ok r) :
+    dictGet? ((gs.zipIdx 1).foldl (fun pvi (gk : List Frame × Nat) =>
+        match recordFrames gk.1 with
+        | .ok (fd, _, _) => nextPvi pvi gk.2 (fd.map (·.1))
+        | .error _ => pvi) base) p
+      = match Spec.latestTxn gs p with
+        | some k => some k
+        | none => dictGet? base p := by
+  exact Proofs.Wal.page_version_index_latest gs base p hok
+
+/-- a record succeeds on every transaction SQLite writes: exactly one commit frame, at the end -/
+theorem record_accepts (init : List Frame) (last : Frame)
+    (hi : ∀ f ∈ init, f.isCommit = false) (hl : last.isCommit = true) :
+    ∃ fd, recordFrames (init ++ [last]) = .ok (fd, true, last.hdr.sizeAfterCommit) ∧
+      ∀ p, (dictGet? fd p).map Frame.number = Spec.latestFrame (init ++ [last]) p := by
+  exact Proofs.Wal.record_accepts init last hi hl
+
+/-- where the code reads a WAL page image is where the file format puts it -/
+theorem frame_offset (ps f : Nat) (hf : 1 ≤ f) :
+    Generated.WAL_HEADER_LENGTH + Generated.WAL_FRAME_HEADER_LENGTH * f + ps * (f - 1) = Spec.frameImageOffset ps f := by
+  exact Proofs.Wal.frame_offset ps f hf
+
+/-- frames of an older generation (salt-1 differs from the header's) are never among the valid
+frames, valid frames carry the header's salts, and their indices are 0,1,2,… -/
+theorem stale_never_served (gs : Option Nat) (file : Buf) (w : Wal) (h : openWal gs file = .ok w) :
+    (∀ f ∈ w.frames, f.hdr.salt1 = w.hdr.salt1 ∧ f.hdr.salt2 = w.hdr.salt2) ∧
+    (∀ f ∈ w.invalid, f.hdr.salt1 ≠ w.hdr.salt1) ∧
+    (w.frames.map Frame.index = List.range w.frames.length) := by
+  exact Proofs.Wal.stale_never_served gs file w h
+
+/-- an accepted WAL ends (as far as its valid frames go) in a commit frame: no frame of an
+unfinished transaction is ever handed to the version history -/
+theorem accepted_ends_in_commit (gs : Option Nat) (file : Buf) (w : Wal) (h : openWal gs file = .ok w) :
+    ∃ init last, w.frames = init ++ [last] ∧ last.isCommit = true ∧ (groupFrames w.frames [] []).2 = [] := by
+  exact Proofs.Wal.accepted_ends_in_commit gs file w h
+
+/-! ### C05: truncation -/
+
+/-- the frame count of a file cut at `n ≥ 32` bytes is the number of whole frames: a partial
+trailing frame is ignored, and the count is monotone in `n` -/
+theorem frames_of_truncated (file : Buf) (n : Nat) (hn : 32 ≤ n) (hle : n ≤ file.size) (w : Wal)
+    (h : openWal none (file.slice 0 n) = .ok w) :
+    w.nFrames = Spec.wholeFrames w.hdr.pageSize n ∧ w.frames.length + w.invalid.length = Spec.wholeFrames w.hdr.pageSize n := by
+  exact Proofs.Wal.frames_of_truncated file n hn hle w h
+
+/-- cutting the file only shortens the frame sequence: every frame the truncated parse sees is,
+field for field, the frame at that index of the full file -/
+theorem truncated_frames_prefix (file : Buf) (n : Nat) (hn : 32 ≤ n) (hle : n ≤ file.size) (w w' : Wal)
+    (hfull : openWal none file = .ok w) (hcut : openWal none (file.slice 0 n) = .ok w') :
+    w'.frames.map (fun f => (f.index, f.hdr)) <+: w.frames.map (fun f => (f.index, f.hdr)) := by
+  exact Proofs.Wal.truncated_frames_prefix file n hn hle w w' hfull hcut
+
+/-- grouping commutes with cutting at a commit frame: the records of a prefix that ends in a commit
+frame are a prefix of the records -/
+theorem group_prefix (fs1 fs2 : List Frame) (init : List Frame) (last : Frame)
+    (h1 : fs1 = init ++ [last]) (hl : last.isCommit = true) :
+    (groupFrames fs1 [] []).1 <+: (groupFrames (fs1 ++ fs2) [] []).1 ∧ (groupFrames fs1 [] []).2 = [] := by
+  exact Proofs.Wal.group_prefix fs1 fs2 init last h1 hl
+
 end SqliteDissect.Properties.C02
